@@ -20,6 +20,8 @@ if [ "$4" = r12 ]; then ROOT=/tmp/seed12; NS="23 24"; fi
 if [ "$4" = r13 ]; then ROOT=/tmp/seed13; NS="25 26"; fi
 if [ "$4" = r14 ]; then ROOT=/tmp/seed14; NS="27 28"; fi
 if [ "$4" = r15 ]; then ROOT=/tmp/seed15; NS="29 30"; fi
+if [ "$4" = r16 ]; then ROOT=/tmp/seed16; NS="31 32"; fi
+if [ "$4" = r17 ]; then ROOT=/tmp/seed17; NS="33 34"; fi
 for n in $NS; do
   [ -f $ROOT/$P/out/patch-$n.diff ] || { echo "no patch-$n for $P" > /verif/.build/sc-$P-$n.log; continue; }
   FEATURES=$SEEDFEATURES SEEDROOT=$ROOT /verif/tools/seed_confirm.sh $P $n $CR $PR > /verif/.build/sc-$P-$n.log 2>&1
